@@ -1,4 +1,4 @@
-import HttpcoreModel.Basic
+import HttpcoreModel.Generated
 /-!
 Model of the HTTP/2 connection's bookkeeping (`httpcore/_async/http2.py`) at h2's event / call
 interface: the stream-slot semaphore and its adjustment on SETTINGS (`:113-127`, `:383-402`), the
@@ -17,10 +17,12 @@ structure Slots where
   want : Nat         -- the value the reader is adjusting `_max_streams` towards (= maxS when idle)
   deriving DecidableEq, Repr
 
-/-- after `_send_connection_init`: a semaphore of 100 drained to 1 -/
-def Slots.init : Slots := { sem := 1, held := 0, maxS := 1, want := 1 }
+/-- the local MAX_CONCURRENT_STREAMS setting (regenerated from `_send_connection_init`) -/
+def localCap : Nat := Gen.h2LocalMaxStreams
 
-def localCap : Nat := 100
+/-- after `_send_connection_init`: a semaphore of `localCap` drained to the initial `_max_streams` -/
+def Slots.init : Slots :=
+  { sem := Gen.h2InitialMaxStreams, held := 0, maxS := Gen.h2InitialMaxStreams, want := Gen.h2InitialMaxStreams }
 
 /-- `_receive_remote_settings_change` for MAX_CONCURRENT_STREAMS = n: releases happen at once;
 acquisitions take what is available and leave the reader waiting for the rest -/
@@ -70,86 +72,109 @@ def routeAll {α} (registered : List Nat) (queues : Nat → List α) : List (Nat
 /-! ### sending under flow control -/
 
 structure SendState where
-  streamWin : Nat
-  connWin : Nat
+  streamWin : Int      -- may be negative after SETTINGS_INITIAL_WINDOW_SIZE was lowered
+  connWin : Int
   maxFrame : Nat
   deriving DecidableEq, Repr
 
-/-- `_wait_for_outgoing_flow`'s value -/
-def flow (w : SendState) : Nat := min (min w.streamWin w.connWin) w.maxFrame
+/-- `min(local_flow_control_window(stream), max_outbound_frame_size)` -/
+def flow (w : SendState) : Int := min (min w.streamWin w.connWin) w.maxFrame
 
 inductive Update
-  | streamWindow (n : Nat)
-  | connWindow (n : Nat)
-  | maxFrame (n : Nat)
-  | initialWindowDelta (up : Bool) (n : Nat)     -- SETTINGS_INITIAL_WINDOW_SIZE changed: stream window +/- n
+  | streamWindow (n : Nat)                  -- WINDOW_UPDATE on the stream
+  | connWindow (n : Nat)                    -- WINDOW_UPDATE on the connection
+  | maxFrame (n : Nat)                      -- SETTINGS_MAX_FRAME_SIZE
+  | initialWindowDelta (d : Int)            -- SETTINGS_INITIAL_WINDOW_SIZE changed by d (up or down)
   deriving Repr
 
 def applyUpdate (w : SendState) : Update → SendState
   | .streamWindow n => { w with streamWin := w.streamWin + n }
   | .connWindow n => { w with connWin := w.connWin + n }
   | .maxFrame n => { w with maxFrame := n }
-  | .initialWindowDelta true n => { w with streamWin := w.streamWin + n }
-  | .initialWindowDelta false n => { w with streamWin := w.streamWin - n }
+  | .initialWindowDelta d => { w with streamWin := w.streamWin + d }
 
-/-- `_send_stream_data` for one body chunk against a schedule of updates (one batch of updates per
-read performed while waiting): the DATA chunks handed to h2, the data left unsent when the
-schedule ends, and the final windows -/
-def sendData : SendState → List (List Update) → List Nat → List (List Nat) × List Nat × SendState
-  | w, _, [] => ([], [], w)
+def applyAll (w : SendState) (us : List Update) : SendState := us.foldl applyUpdate w
+
+theorem flowWaits_false_pos {f : Int} (h : Gen.flowWaits f = false) : 0 < f := by
+  simp [Gen.flowWaits] at h; omega
+
+structure SendResult where
+  emitted : List (List Nat × SendState)     -- each DATA payload with the windows it was sent against
+  left : List Nat                           -- unsent when the schedule of reads ran out
+  final : SendState
+
+/-- `_send_stream_data` for one body chunk against a schedule of updates (one batch per read performed
+while waiting in `_wait_for_outgoing_flow`) -/
+def sendData : SendState → List (List Update) → List Nat → SendResult
+  | w, _, [] => ⟨[], [], w⟩
   | w, sched, d :: ds =>
-    if flow w = 0 then
+    if h : Gen.flowWaits (flow w) = true then
       match sched with
-      | [] => ([], d :: ds, w)                        -- still waiting when the schedule ends
-      | us :: rest => sendData (us.foldl applyUpdate w) rest (d :: ds)
+      | [] => ⟨[], d :: ds, w⟩                       -- still waiting when the schedule ends
+      | us :: rest => sendData (applyAll w us) rest (d :: ds)
     else
-      let n := min (d :: ds).length (flow w)
-      let chunk := (d :: ds).take n
+      let n := min (d :: ds).length (flow w).toNat
       let r := sendData { w with streamWin := w.streamWin - n, connWin := w.connWin - n } sched ((d :: ds).drop n)
-      (chunk :: r.1, r.2.1, r.2.2)
-termination_by w sched data => (data.length, sched.length)
+      ⟨((d :: ds).take n, w) :: r.emitted, r.left, r.final⟩
+termination_by _ sched data => (data.length, sched.length)
 decreasing_by
-  all_goals simp_wf
-  · right; simp
-  · left
-    have h1 : 0 < flow w := by omega
-    simp [List.length_drop]
+  · simp_wf
+    right; simp
+  · simp_wf
+    left
+    have h1 : 0 < flow w := flowWaits_false_pos (by simpa using h)
+    have : 0 < (flow w).toNat := by omega
     omega
 
-/-! ### receive-side credit (h2's WindowManager) -/
+/-! ### receive-side credit (h2's WindowManager, driven by `acknowledge_received_data`) -/
 
 structure Win where
   max : Nat          -- max_window_size
-  cur : Nat          -- current_window_size (what the peer may still send)
-  proc : Nat         -- _bytes_processed: acknowledged by httpcore, not yet returned to the peer
+  cur : Nat          -- current_window_size: what the peer may still send
+  pend : Nat         -- received, not yet acknowledged by httpcore (ghost)
+  proc : Nat         -- _bytes_processed: acknowledged, not yet returned to the peer
   deriving DecidableEq, Repr
 
-/-- `window_consumed(n)`: DATA of flow-controlled length n arrives -/
-def Win.consume (w : Win) (n : Nat) : Option Win := if n ≤ w.cur then some { w with cur := w.cur - n } else none
+/-- `window_consumed(n)`: DATA of flow-controlled length n arrives (h2 rejects n > cur) -/
+def Win.consume (w : Win) (n : Nat) : Option Win :=
+  if n ≤ w.cur then some { w with cur := w.cur - n, pend := w.pend + n } else none
 
-/-- `process_bytes(n)` = acknowledge_received_data: returns the WINDOW_UPDATE increment emitted -/
+/-- `process_bytes(n)` (= `acknowledge_received_data(n)`): the new state and the WINDOW_UPDATE increment emitted -/
 def Win.process (w : Win) (n : Nat) : Win × Nat :=
   let proc := w.proc + n
-  if proc = 0 then ({ w with proc := proc }, 0)
+  let w' := { w with pend := w.pend - n, proc := proc }
+  if proc = 0 then (w', 0)
   else
     let maxInc := w.max - w.cur
     if (w.cur = 0 ∧ proc > min 1024 (w.max / 4)) ∨ proc ≥ w.max / 2 then
       let inc := min proc maxInc
-      ({ w with cur := w.cur + inc, proc := 0 }, inc)
-    else ({ w with proc := proc }, 0)
+      ({ w' with cur := w.cur + inc, proc := 0 }, inc)
+    else (w', 0)
 
-/-! ### GOAWAY -/
+/-! ### GOAWAY and re-sending -/
 
 inductive GoawayOutcome | connectionNotAvailable | remoteProtocolError
   deriving DecidableEq, Repr
 
-/-- `_receive_events` once a GOAWAY with `last_stream_id = last` is stored; `strict = true` is the
-repaired comparison, `false` the 1.0.7 expression `stream_id and last_stream_id and stream_id > last` -/
-def goawayOutcome (strict : Bool) (sid : Option Nat) (last : Nat) : GoawayOutcome :=
-  match sid with
-  | none => .remoteProtocolError
-  | some id =>
-    if strict then (if id > last then .connectionNotAvailable else .remoteProtocolError)
-    else (if id ≠ 0 ∧ last ≠ 0 ∧ id > last then .connectionNotAvailable else .remoteProtocolError)
+/-- `_receive_events` once a GOAWAY with `last_stream_id = last` is stored (the test is regenerated from the source) -/
+def goawayOutcome (sid last : Nat) : GoawayOutcome :=
+  if Gen.goawayRetry sid last then .connectionNotAvailable else .remoteProtocolError
+
+/-- one transmission attempt of a call as the pool sees it -/
+inductive AttemptResult | response | notAvailable | failed
+  deriving DecidableEq, Repr
+
+structure Attempt where
+  conn : Nat
+  wrote : Bool          -- request bytes reached this connection
+  refused : Bool        -- a GOAWAY named a last-stream-id below the request's stream
+  result : AttemptResult
+  deriving DecidableEq, Repr
+
+/-- the pool's loop (`connection_pool.py:handle_async_request`): attempts are consumed until one does not end in
+ConnectionNotAvailable -/
+def attemptsUsed : List Attempt → List Attempt
+  | [] => []
+  | a :: rest => if a.result = .notAvailable then a :: attemptsUsed rest else [a]
 
 end Httpcore.H2
